@@ -39,9 +39,15 @@ def run_driver(script, args, *, timeout=900, cwd=None, env=None):
     if env:
         e.update(env)
     wd = cwd or tlc.workdir("drv")
-    p = subprocess.run([PY, os.path.join(DRIVERS, script)] + [str(a) for a in args], cwd=wd, env=e,
-                       stdout=subprocess.PIPE, stderr=subprocess.PIPE, timeout=timeout, text=True,
-                       errors="replace")
+    for attempt in range(3):
+        p = subprocess.run([PY, os.path.join(DRIVERS, script)] + [str(a) for a in args], cwd=wd, env=e,
+                           stdout=subprocess.PIPE, stderr=subprocess.PIPE, timeout=timeout, text=True,
+                           errors="replace")
+        # killed by a signal (a crash inside the simulator's native libraries - the code under test is pure Python):
+        # the same deterministic run is tried again
+        if p.returncode >= 0:
+            break
+        log("driver %s died with signal %d (attempt %d)" % (script, -p.returncode, attempt + 1))
     if p.returncode != 0:
         raise MachineryError("driver %s %s failed (rc=%s)\n%s\n%s" % (
             script, args, p.returncode, p.stdout[-3000:], p.stderr[-6000:]))
